@@ -79,8 +79,9 @@ def _inputs(rng, directed=None, need_right_disp=False, small=False):
     ik = ["neg", "pos", "straddle", "point", "straddle", "grid"][int(rng.integers(0, 6))]
     if ik == "grid":
         lo, hi = -int(rng.integers(1, 4)), int(rng.integers(0, 4))
-        disp = gen.grids(rng, rows, cols, lo, hi, "random")
-        rdisp = gen.grids(rng, rows, cols, -hi, -lo, "random")
+        gk = ["random", "band", "pointvar"][int(rng.integers(0, 3))]
+        disp = gen.grids(rng, rows, cols, lo, hi, gk)
+        rdisp = gen.grids(rng, rows, cols, -hi, -lo, gk)
     else:
         disp = gen.interval(rng, cols, ik)
         rdisp = None
